@@ -185,7 +185,7 @@ fn mk_task(h: u32, last: Tai64, created: Instant, trigger: Trigger, now: Tai64, 
 // produce_block: only blocks whose timestamp is not below the last block's are produced; the block is produced for the
 // requested height and time, sealed, then imported - in that order, each once; height and timestamp advance exactly on
 // success and are untouched by any failure (missing key, stale timestamp, producer, signer or importer error).
-//@ harness kind=proof tier=quick timeout=600 extra="-Z async-lib --default-unwind 3"
+//@ harness kind=proof tier=quick timeout=2400 extra="-Z async-lib --default-unwind 3"
 #[cfg(kani)]
 #[kani::proof]
 fn c24_produce_block() {
@@ -235,14 +235,18 @@ fn reconcile_case(kind: u8, n_blocks: u8) {
     kani::assume(h0 < u32::MAX - 4);
     let mut task = mk_task(h0, Tai64(t0), Instant { tick: 0, elapsed: Duration::ZERO }, Trigger::Never, Tai64(0), true, false, false, false);
     let db0: Option<u32> = if kani::any() { Some(kani::any()) } else { None };
+    // heights below u32::MAX: next_height() has no successor to offer at the maximum (the code's own expect)
+    kani::assume(db0 != Some(u32::MAX));
     task.block_importer.db_height.set(db0);
     task.block_importer.db_read_fails = kani::any();
     let db_read_fails = task.block_importer.db_read_fails;
     let db_after: Option<u32> = if kani::any() { Some(kani::any()) } else { None };
+    kani::assume(db_after != Some(u32::MAX));
     task.block_importer.db_height_after_import = db_after;
     let fail_of: Option<u32> = if kani::any() { Some(kani::any()) } else { None };
     task.block_importer.fail_import_of = fail_of;
     let (b1h, b1t, b2h, b2t): (u32, u64, u32, u64) = (kani::any(), kani::any(), kani::any(), kani::any());
+    kani::assume(b1h != u32::MAX && b2h != u32::MAX);
     let mkb = |h: u32, t: u64| SealedBlock { entity: Block { height: BlockHeight(h), time: Tai64(t) }, consensus: Consensus(0) };
     let answer = match kind { 0 => LeaderState::ReconciledFollower, 1 => LeaderState::ReconciledLeader,
         _ => LeaderState::UnreconciledBlocks(Blocks { items: [if n_blocks >= 1 { Some(mkb(b1h, b1t)) } else { None }, if n_blocks >= 2 { Some(mkb(b2h, b2t)) } else { None }], i: 0 }) };
@@ -284,19 +288,19 @@ fn reconcile_case(kind: u8, n_blocks: u8) {
     kani::assert(task.normal_production_calls.get() == (if !port_fails && kind == 1 { 1 } else { 0 }), "[C24.poa-time.reconcile.blocks-are-produced-only-as-reconciled-leader]");
 }
 
-//@ harness kind=bounded tier=quick bound="at most 2 blocks to reconcile per call" timeout=1200 extra="-Z async-lib --default-unwind 4"
+//@ harness kind=bounded tier=thorough bound="at most 2 blocks to reconcile per call" timeout=3600 extra="-Z async-lib --default-unwind 4"
 #[cfg(kani)]
 #[kani::proof]
 fn c24_reconcile_follower() { reconcile_case(0, 0); }
-//@ harness kind=bounded tier=quick bound="at most 2 blocks to reconcile per call" timeout=1200 extra="-Z async-lib --default-unwind 4"
+//@ harness kind=bounded tier=thorough bound="at most 2 blocks to reconcile per call" timeout=3600 extra="-Z async-lib --default-unwind 4"
 #[cfg(kani)]
 #[kani::proof]
 fn c24_reconcile_leader() { reconcile_case(1, 0); }
-//@ harness kind=bounded tier=quick bound="at most 2 blocks to reconcile per call" timeout=1200 extra="-Z async-lib --default-unwind 4"
+//@ harness kind=bounded tier=thorough bound="at most 2 blocks to reconcile per call" timeout=3600 extra="-Z async-lib --default-unwind 4"
 #[cfg(kani)]
 #[kani::proof]
 fn c24_reconcile_one_block() { reconcile_case(2, 1); }
-//@ harness kind=bounded tier=quick bound="at most 2 blocks to reconcile per call" timeout=1200 extra="-Z async-lib --default-unwind 4"
+//@ harness kind=bounded tier=quick bound="at most 2 blocks to reconcile per call" timeout=3000 extra="-Z async-lib --default-unwind 4"
 #[cfg(kani)]
 #[kani::proof]
 fn c24_reconcile_two_blocks() { reconcile_case(2, 2); }
